@@ -771,7 +771,14 @@ func (c *call) pump() {
 				c.reqBuf.finish(fmt.Errorf("memhttp: request body: %w", err))
 				c.reqBodyFailed(err)
 				if pending {
-					c.applyCancel() // (no-op for what reqBodyFailed already did)
+					// The context is done as well, but what aborts the stream - and
+					// what reading the response body then reports - is the failed
+					// read of the request body, as with net/http's HTTP/2 transport
+					// (writeRequestBody returns the read error, cleanupWriteRequest
+					// aborts the stream with it).
+					c.ex.mu.Lock()
+					c.ex.ServerCtxCancelled = true
+					c.ex.mu.Unlock()
 				}
 			}
 			return
